@@ -94,6 +94,22 @@ def harnesses(tier, seed):
                "\n@dataclass\nclass K(KM):\n    f3: int = 30\n")
         hs.append(gen.custom_harness("C09", "c09", Schema("KH_%d%d" % (allow, forbid), "K", src), "mixin",
                                      "extra=('bA',)", "extra=('bA',)"))
+    # classes without constructor parameters (no fields at all / only an init=False field): no key is expected;
+    # alias cycles and chains: a's alias is b's name while b has an alias of its own
+    cfgf = "    class Config(BaseConfig):\n        forbid_extra_keys = True\n"
+    hs.append(gen.custom_harness("C09", "c09", Schema("KE_empty", "K", "@dataclass\nclass K(DataClassDictMixin):\n" + cfgf), "mixin",
+                                 "extra=('k1',)", "extra=('k1',)"))
+    hs.append(gen.custom_harness("C09", "c09", Schema("KE_noinit", "K", "@dataclass\nclass K(DataClassDictMixin):\n"
+                                 "    comp: int = field(init=False, default=7)\n" + cfgf), "mixin", "extra=('comp',)", "extra=('comp',)"))
+    for allow, forbid in itertools.product([False, True], repeat=2):
+        cfg = ("    class Config(BaseConfig):\n        allow_deserialization_not_by_alias = %r\n        forbid_extra_keys = %r\n"
+               % (allow, forbid))
+        src = ("@dataclass\nclass K(DataClassDictMixin):\n    a: int = field(metadata={'alias': 'b'})\n"
+               "    b: int = field(metadata={'alias': 'a'})\n    c: int = 3\n" + cfg)
+        hs.append(gen.custom_harness("C09", "c09", Schema("KS_%d%d" % (allow, forbid), "K", src), "mixin"))
+        src = ("@dataclass\nclass K(DataClassDictMixin):\n    first: int = field(metadata={'alias': 'second'})\n"
+               "    second: int = field(metadata={'alias': 'third'})\n    third: int = 3\n" + cfg)
+        hs.append(gen.custom_harness("C09", "c09", Schema("KC_%d%d" % (allow, forbid), "K", src), "mixin"))
     return hs
 
 
